@@ -77,6 +77,31 @@ func shallowInert(s ast.Stmt, tracked map[string]bool) bool {
 			}
 		}
 		return true
+	case *ast.RangeStmt:
+		// a loop that only logs / tallies into untracked locals (`continue` and `break` inside it stay inside it)
+		if !callsAllowed(v.X) {
+			return false
+		}
+		for _, x := range v.Body.List {
+			if br, ok := x.(*ast.BranchStmt); ok && br.Label == nil && (br.Tok == token.CONTINUE || br.Tok == token.BREAK) {
+				continue
+			}
+			if is, ok := x.(*ast.IfStmt); ok && is.Init == nil && is.Else == nil && callsAllowed(is.Cond) {
+				allBr := true
+				for _, y := range is.Body.List {
+					if br, ok := y.(*ast.BranchStmt); !(ok && br.Label == nil && (br.Tok == token.CONTINUE || br.Tok == token.BREAK)) && !shallowInert(y, tracked) {
+						allBr = false
+					}
+				}
+				if allBr {
+					continue
+				}
+			}
+			if !shallowInert(x, tracked) {
+				return false
+			}
+		}
+		return true
 	case *ast.IfStmt:
 		if v.Init != nil && !shallowInert(v.Init, tracked) {
 			return false
@@ -107,10 +132,15 @@ func (a *ar) identsOf(n ast.Node, into map[string]bool) {
 
 func definedBy(s ast.Stmt) (names map[string]bool, allDefine bool) {
 	names, allDefine = map[string]bool{}, true
+	_, simple := s.(*ast.AssignStmt)
 	ast.Inspect(s, func(x ast.Node) bool {
 		if as, ok := x.(*ast.AssignStmt); ok {
 			if as.Tok != token.DEFINE {
 				allDefine = false
+			} else if !simple {
+				// `:=` inside a compound statement (a loop body, an if) declares a variable of that inner scope: it cannot be the one a
+				// statement outside reads
+				return true
 			}
 			for _, l := range as.Lhs {
 				if id, ok := l.(*ast.Ident); ok {
@@ -120,6 +150,9 @@ func definedBy(s ast.Stmt) (names map[string]bool, allDefine bool) {
 		}
 		return true
 	})
+	if !simple {
+		allDefine = false
+	}
 	return
 }
 
@@ -504,6 +537,35 @@ func genScaleUp(repo, out string) {
 	b.WriteString("def scaleUp (want untaintedIn : Int) (untaintErr : Bool) (addedIn : Int) (addErr : Bool) : Int × Bool × Bool × Int × Bool × Int :=\n" + body + "\n\n")
 	fmt.Fprintf(&b, "def numScaleUpUnknown : Nat := %d\n\nend Esc.Gen\n", a.unknown)
 	writeIfChanged(filepath.Join(out, "ScaleUp.lean"), b.String())
+}
+
+// genTryDelete: the skeleton of TryDeleteNodes (pkg/controller/scale_down.go): the order of the cloud call and the Kubernetes call
+func genTryDelete(repo, out string) {
+	sd := parse(filepath.Join(repo, "pkg/controller/scale_down.go"))
+	var b strings.Builder
+	b.WriteString("/- GENERATED by /verif/extract from /repo/pkg/controller/scale_down.go (TryDeleteNodes) — do not edit. -/\nimport Esc.Gen.Arith\nnamespace Esc.Gen\n\n")
+	a := &ar{fn: "tryDeleteFn"}
+	body := "  (0, true, false, false) -- not found"
+	if fd := findFunc(sd, "TryDeleteNodes"); fd != nil && fd.Body != nil {
+		a.atoms = map[string][2]string{"len(toBeDeleted)": {"count", "I"}}
+		a.callAtoms = map[string][][2]string{
+			"c.cloudProvider.GetNodeGroup(opts.nodeGroup.Opts.CloudProviderGroupName)": {{"", ""}, {"groupFound", "B"}},
+			"cloudProviderNodeGroup.DeleteNodes(toBeDeleted...)":                       {{"cloudErr", "B"}},
+			"k8s.DeleteNodes(toBeDeleted, c.Client)":                                   {{"k8sErr", "B"}},
+		}
+		a.callPre = map[string]string{
+			"cloudProviderNodeGroup.DeleteNodes(toBeDeleted...)": "let cloudCalled_ : Bool := true",
+			"k8s.DeleteNodes(toBeDeleted, c.Client)":             "let k8sCalled_ : Bool := true",
+		}
+		a.markInert(fd.Body.List, map[string]bool{})
+		body = "  let cloudCalled_ : Bool := false\n  let k8sCalled_ : Bool := false\n" + a.block(fd.Body.List, env{}, "  ")
+	} else {
+		a.unknown++
+	}
+	b.WriteString("/-- `TryDeleteNodes` for `count` candidates: (value returned, an error is returned, the cloud's `DeleteNodes` was called, the\n    Kubernetes `DeleteNodes` was called). `groupFound`: the cloud provider knows the group; `cloudErr` / `k8sErr`: the two calls\n    returned an error. -/\n")
+	b.WriteString("def tryDelete (count : Int) (groupFound cloudErr k8sErr : Bool) : Int × Bool × Bool × Bool :=\n" + body + "\n\n")
+	fmt.Fprintf(&b, "def numTryDeleteUnknown : Nat := %d\n\nend Esc.Gen\n", a.unknown)
+	writeIfChanged(filepath.Join(out, "TryDelete.lean"), b.String())
 }
 
 func genReap(repo, out string) {
